@@ -22,6 +22,13 @@ import (
 
 func init() { core.Register("C01", Run) }
 
+var hexAddr = regexp.MustCompile(`0x[0-9a-f]{6,}`)
+
+// goValue prints a value as Go syntax for failure reports (func values: their type; addresses masked).
+func goValue(v any) string {
+	return hexAddr.ReplaceAllString(strings.ReplaceAll(fmt.Sprintf("%#v", v), "github.com/a-h/templ.", "templ."), "0x..")
+}
+
 var goOneDigit = regexp.MustCompile(`&#[0-9]([^0-9;]|$)`)
 
 var escAlphabet = []string{"&", "<", ">", "\"", "'", "a", ";", "#", "\x00", "\r", "\xff", "\xe2"}
@@ -663,13 +670,21 @@ func (g *styleGen) str() string {
 		return string(randString(g.r, 16))
 	}
 }
+
+const styleKinds, styleTypedKinds = 13, 34
+
 func (g *styleGen) value(depth int) (any, [][]byte) {
 	s, t := g.str(), g.str()
-	sanS := func(v string) []byte { return []byte(strings.TrimSpace(safehtml.SanitizeStyleValue(v))) }
-	k := g.r.Intn(13)
+	k := g.r.Intn(styleKinds + 6)
 	if depth <= 0 && (k == 8 || k == 9 || k == 10) {
 		k = 0
 	}
+	return g.valueOf(k, g.r.Intn(styleTypedKinds), s, t, depth)
+}
+
+// valueOf: kind k (k >= styleKinds: typed kind sub) over the strings s, t.
+func (g *styleGen) valueOf(k, sub int, s, t string, depth int) (any, [][]byte) {
+	sanS := func(v string) []byte { return []byte(strings.TrimSpace(safehtml.SanitizeStyleValue(v))) }
 	switch k {
 	case 0, 1:
 		return s, [][]byte{[]byte("s"), sanS(s), b01(s == "")}
@@ -727,31 +742,168 @@ func (g *styleGen) value(depth int) (any, [][]byte) {
 		return l, enc
 	case 11:
 		return nil, [][]byte{[]byte("n")}
-	default:
+	case 12:
 		return 42, [][]byte{[]byte("o")}
+	default:
+		return g.typed(sub, s, t)
+	}
+}
+
+type namedString string
+type namedSafeCSS templ.SafeCSS
+
+// typed: the rest of the TYPE space - the documented templ.KeyValue[string, templ.SafeCSSProperty], neighbouring
+// KeyValue / map / pointer / named types (all rendered as the unsupported placeholder: model SOther; the table
+// styleModelKind is compared with the source text of the type switch on every run), and TYPED slices and funcs of
+// the supported types, which reach their branch through the reflection fallback.
+func (g *styleGen) typed(sub int, s, t string) (any, [][]byte) {
+	o := [][]byte{[]byte("o")}
+	sanS := func(v string) [][]byte {
+		return [][]byte{[]byte("s"), []byte(strings.TrimSpace(safehtml.SanitizeStyleValue(v))), b01(v == "")}
+	}
+	css := func(v string) [][]byte { return [][]byte{[]byte("c"), []byte(v)} }
+	kv := func(a, b string) [][]byte {
+		n, v := safehtml.SanitizeCSS(a, b)
+		return [][]byte{[]byte("k"), []byte(n), []byte(v)}
+	}
+	list := func(items ...[][]byte) [][]byte {
+		enc := [][]byte{[]byte("l"), []byte(fmt.Sprint(len(items)))}
+		for _, i := range items {
+			enc = append(enc, i...)
+		}
+		return enc
+	}
+	fn := func(e [][]byte) [][]byte { return append([][]byte{[]byte("f")}, e...) }
+	prop := "font-family"
+	if g.r.Bool() {
+		prop = s
+	}
+	switch sub {
+	case 0, 1, 2, 3:
+		return templ.KV(prop, templ.SafeCSSProperty(t)), o
+	case 4:
+		return templ.SafeCSSProperty(t), o
+	case 5:
+		return templ.KV(templ.SafeCSSProperty(t), true), o
+	case 6:
+		return templ.KV(templ.SafeCSS(s), t), o
+	case 7:
+		return templ.KV(prop, templ.SafeCSS(t)), o
+	case 8:
+		return templ.KV(templ.SafeCSS(s), templ.SafeCSSProperty(t)), o
+	case 9:
+		return map[string]templ.SafeCSS{prop: templ.SafeCSS(t)}, o
+	case 10:
+		return map[templ.SafeCSS]bool{templ.SafeCSS(t): true}, o
+	case 11:
+		return map[string]bool{t: true}, o
+	case 12:
+		return map[string]any{prop: t}, o
+	case 13:
+		return templ.Attributes{"style": t}, o
+	case 14:
+		return templ.SafeURL(t), o
+	case 15:
+		return &t, o
+	case 16:
+		c := templ.SafeCSS(t)
+		return &c, o
+	case 17:
+		return [2]string{s, t}, o
+	case 18:
+		return namedString(t), o
+	case 19:
+		return namedSafeCSS(t), o
+	case 20:
+		var items [][][]byte
+		for range []byte(t) {
+			items = append(items, o)
+		}
+		return []byte(t), list(items...)
+	case 21:
+		return []string{s, t}, list(sanS(s), sanS(t))
+	case 22:
+		return []templ.SafeCSS{templ.SafeCSS(s), templ.SafeCSS(t)}, list(css(s), css(t))
+	case 23:
+		return []templ.KeyValue[string, string]{templ.KV(prop, t), templ.KV(t, s)}, list(kv(prop, t), kv(t, s))
+	case 24:
+		return []templ.KeyValue[string, templ.SafeCSSProperty]{templ.KV(prop, templ.SafeCSSProperty(t))}, list(o)
+	case 25:
+		return [][]string{{s}, {t, s}}, list(list(sanS(s)), list(sanS(t), sanS(s)))
+	case 26:
+		return func() string { return t }, fn(sanS(t))
+	case 27:
+		return func() (string, error) { return t, nil }, fn(sanS(t))
+	case 28:
+		return func() templ.SafeCSS { return templ.SafeCSS(t) }, fn(css(t))
+	case 29:
+		return func() templ.KeyValue[string, string] { return templ.KV(prop, t) }, fn(kv(prop, t))
+	case 30:
+		return func() (templ.KeyValue[string, templ.SafeCSSProperty], error) {
+			return templ.KV(prop, templ.SafeCSSProperty(t)), nil
+		}, fn(o)
+	case 31:
+		return func() []string { return []string{s, t} }, fn(list(sanS(s), sanS(t)))
+	case 32:
+		return []func() templ.SafeCSS{func() templ.SafeCSS { return templ.SafeCSS(t) }}, list(fn(css(t)))
+	default:
+		return []any{templ.KV(prop, templ.SafeCSSProperty(t)), &s, nil}, list(o, o, [][]byte{[]byte("n")})
 	}
 }
 
 func famStyle(c *core.Ctx) {
+	styleSourceTie(c, styleSource())
 	g := &styleGen{r: c.Rng}
-	n := c.N(4000, 80000)
+	n := c.N(6000, 100000)
 	var reqs, inertReqs []drv.Req
 	var outs []string
-	for i := 0; i < n; i++ {
+	var goTypes [][]string
+	// sweep first (so that the first failure is small): every kind as the only value, over a few fixed strings
+	type fixed struct {
+		k, sub int
+		s, t   string
+	}
+	var sweep []fixed
+	for _, p := range [][2]string{{"font-family", `"Helvetica Neue", sans-serif`}, {"background-image", `url("a.png")`}, {`x" y="`, `x" onmouseover="alert(1)`}, {"color", "red"}, {"a<b&c", "a<b&c>'"}} {
+		for k := 0; k < styleKinds; k++ {
+			sweep = append(sweep, fixed{k, 0, p[0], p[1]})
+		}
+		for sub := 0; sub < styleTypedKinds; sub++ {
+			if sub >= 1 && sub <= 3 {
+				continue // the same kind as 0 (weighted in the random stream)
+			}
+			sweep = append(sweep, fixed{styleKinds, sub, p[0], p[1]})
+		}
+	}
+	for i := 0; i < n+len(sweep); i++ {
 		cnt := 1 + c.Rng.Intn(3)
+		if i < len(sweep) {
+			cnt = 1
+		}
 		var vals []any
+		var typs []string
 		args := [][]byte{[]byte(fmt.Sprint(cnt))}
 		for j := 0; j < cnt; j++ {
-			v, e := g.value(2)
+			var v any
+			var e [][]byte
+			if i < len(sweep) {
+				v, e = g.valueOf(sweep[i].k, sweep[i].sub, sweep[i].s, sweep[i].t, 1)
+			} else {
+				v, e = g.value(2)
+			}
 			vals = append(vals, v)
 			args = append(args, e...)
 			c.Hist("style value kind " + string(e[0]))
+			ty := strings.ReplaceAll(fmt.Sprintf("%T", v), "github.com/a-h/templ.", "templ.")
+			typs = append(typs, ty+" = "+goValue(v))
+			c.Hist("style value Go type " + ty)
 		}
 		out, err := templruntime.SanitizeStyleAttributeValues(vals...)
 		if err != nil {
 			continue
 		}
 		outs = append(outs, out)
+		goTypes = append(goTypes, typs)
 		reqs = append(reqs, drv.Req{Fn: "style", Args: args})
 		inertReqs = append(inertReqs, drv.Req{Fn: "inert", Args: [][]byte{[]byte(out)}})
 		c.Count(key("style", []byte(out)))
@@ -771,13 +923,13 @@ func famStyle(c *core.Ctx) {
 				if len(res[i]) == 2 {
 					m = core.Q(res[i][1])
 				}
-				c.Fail("tie", "style: model = SanitizeStyleAttributeValues", "", map[string]any{"values (encoded, sanitiser results from the live code)": l, "impl": outs[i], "model": m}, "model and implementation differ")
+				c.Fail("tie", "style: model = SanitizeStyleAttributeValues", "", map[string]any{"Go values": goTypes[i], "values (encoded, sanitiser results from the live code)": l, "impl": outs[i], "model": m}, "model and implementation differ")
 			}
 		}
 		if len(in[i]) != 1 || string(in[i][0]) != "1" {
 			propOK = false
 			if c.NFails("style: the value written between the quotes holds no double quote") < 5 {
-				c.Fail("property", "style: the value written between the quotes holds no double quote", "", map[string]any{"values (encoded)": l, "impl": outs[i]},
+				c.Fail("property", "style: the value written between the quotes holds no double quote", "", map[string]any{"Go values": goTypes[i], "values (encoded)": l, "impl": outs[i]},
 					"SanitizeStyleAttributeValues returned a raw double quote (or <): the generated code writes it unescaped between double quotes")
 			}
 		}
